@@ -17,6 +17,45 @@ FF = "full"
 MIN = "min"
 
 PROPS = {
+    "C01": {
+        "ops": [("wrap", FF, 8000, 250000), ("wrap", MIN, 3000, 60000), ("wrap9", FF, 1500, 30000)],
+        "explanation": "stage theorems (word finding, splitting, force-breaking are lossless; the algorithm only groups) — the assembled statement about wrap's lines is in progress (Proofs/Pipeline.v); L2: a backtracking re-parse of every returned line as indent + slice of the text (+ inserted hyphen), slices in order, gaps only spaces/line endings, borrowed lines at their byte offset, no slice ending in a space outside the Unicode/force-break exception",
+        "assumptions": ["custom splitters return valid character boundaries"],
+    },
+    "C02": {
+        "ops": [("wrap", FF, 8000, 250000), ("wrap", MIN, 3000, 60000)],
+        "explanation": "fragment-level theorems (greedy lines with >= 2 fragments fit; force-broken pieces are bounded) — text-level assembly in progress; L2: every first-fit line of well-formed text is at most the width wide, or its body is unbreakable under the configured separator/splitter, or it is in a listed known-finding class",
+        "assumptions": ["display width is evaluated with the model's dw on the implementation's lines (dw itself is tied by C10)"],
+    },
+    "C04": {
+        "ops": [("wrap", FF, 3000, 100000), ("wrap", MIN, 1500, 30000), ("fill2", FF, 1500, 40000), ("fip", FF, 2000, 50000),
+                ("unfill", FF, 2000, 50000), ("refill", FF, 2000, 50000), ("indent", FF, 1500, 30000), ("dedent", FF, 1500, 30000),
+                ("wc", FF, 1500, 40000), ("dw", FF, 2000, 40000), ("fwa", FF, 1500, 30000), ("fwu", FF, 1500, 30000),
+                ("sw", FF, 1500, 30000), ("bw", FF, 1500, 30000), ("ba", FF, 1500, 30000), ("ff", FF, 1500, 30000),
+                ("of", FF, 1500, 30000), ("ffx", FF, 2000, 50000), ("ofx", FF, 2000, 50000), ("wsl", FF, 1500, 30000)],
+        "explanation": "totality theorems for fill_inplace, unfill, split_words (built-in splitters), optimal_fit (every Num), wrap_columns relative to wrap; wrap itself pending Proofs/Pipeline.v; the rest is exploration: every op under catch_unwind and a watchdog on the adversarial stream, debug build with overflow checks (release as well in the thorough tier), non-finite f64 fragments",
+        "assumptions": ["memory exhaustion, stack depth and wall-clock time are outside the model and only measured"],
+    },
+    "C05": {
+        "ops": [("wsl", FF, 10000, 300000), ("fills", FF, 4000, 100000), ("wsl", MIN, 3000, 60000), ("fills", MIN, 1500, 30000)],
+        "explanation": "fragment-level theorems (dw <= byte length; fragments that fit give one first-fit line) — assembly in progress; L2: impl-vs-impl comparison of wrap_single_line with its slow path and of fill with fill_slow_path through upstream's cfg(fuzzing) exports, and 'fits => one unchanged line' on the slow path, outside the listed class CutInsideEscape",
+        "assumptions": ["upstream's --cfg fuzzing exports are the only way to reach the slow path directly"],
+    },
+    "C08": {
+        "ops": [("wrap", FF, 6000, 150000), ("wrap8", FF, 6000, 150000), ("wrap", MIN, 2000, 40000), ("wrap8", MIN, 2000, 40000)],
+        "explanation": "theorem C08_indents for every text/option/oracle; the second half (what follows the indent depends only on the indents' widths and emptiness) is checked by L2 on pairs of runs with substituted indents and by L1",
+        "assumptions": [],
+    },
+    "C13": {
+        "ops": [("wrap13", FF, 10000, 300000), ("wrap13", MIN, 3000, 60000)],
+        "explanation": "stage theorems (widths blind to well-formed sequences, force-breaking never cuts a sequence, Unicode boundaries at top level) — wrap-level assembly pending; L2: for texts meeting the property's precondition, strip(lines(coloured)) = lines(stripped), no line ends inside a sequence, no sequence dropped, outside the listed class CutInsideEscape",
+        "assumptions": [],
+    },
+    "C14": {
+        "ops": [("fill2", FF, 10000, 300000), ("fill2", MIN, 3000, 60000)],
+        "explanation": "stage theorems (a force-broken piece is a fixed point; small words pass through) — assembly pending; L2: fill(fill(t)) = fill(t) on the implementation under the property's option conditions",
+        "assumptions": ["reading of the optimal-fit clause as in DESIGN.md §6/C14"],
+    },
     "C03": {
         "ops": [("of", FF, 12000, 400000), ("wrap", FF, 4000, 150000), ("fill2", FF, 2000, 50000)],
         "explanation": "theorems: the DP value is a lower bound for EVERY arrangement (Bellman, <=2 line widths), attained by back-tracking any true column minima (conditional on ColMin for smawk, which is not proved), the reference search satisfies ColMin, three widths are a counterexample, wrap hands exactly two widths to the algorithm; L1/L2: exact cost (Q) of the implementation's arrangement = the DP optimum for every generated fragment list inside the precondition, and for every paragraph partition recorded at the wrap level",
